@@ -149,6 +149,24 @@ def vmFamily (fam : String) : Option (Parser String) :=
   | "prog" => some do
     let c ← pVmCase
     pure (runVmCase c)
+  | "reuse" => some do
+    -- one Vm value used for two executions (see harness fam_vm.rs)
+    let index2 ← nat
+    let prog2 ← bytes
+    let t ← tok
+    if t != "prog" then failure else
+    let c ← pVmCase
+    match decode c.prog with
+    | .error _ => pure (runVmCase { c with mode := "ops" })
+    | .ok ops =>
+      let arr := ops.toArray
+      let env := { c.env with ops := fun i => arr[i]? }
+      match exec fuelDefault env c.vm with
+      | .ok (some (g, vm)) =>
+        let r1 := showVm g vm
+        let c2 : VmCase := { mode := "ops", prog := prog2, vm := { vm with pc := 0 }, env := { c.env with index := index2 } }
+        pure s!"{r1} | {runVmCase c2}"
+      | _ => pure (runVmCase { c with mode := "ops" })
   | _ => none
 
 end Driver
